@@ -242,6 +242,7 @@ def shards(tier, seed):
             if hn == 3:
                 sh.append(dict(h="pruning", params=dict(k=3, hn=hn, hedges=es, invert=(len(es) % 2 == 0))))
     sh.append(dict(h="pruning_family", params=dict(family="2+2", invert=False)))
+    sh.append(dict(h="pruning_family", params=dict(family="2+2-adj", invert=True)))
     for es in all_shapes(3):
         sh.append(dict(h="pruning_history", params=dict(k=3, hn=3, hedges=es, invert=(len(es) % 2 == 1))))
     sh.append(dict(h="dedup", params=dict(k=2, with_host=True)))
